@@ -125,15 +125,24 @@ KIND_HEAVY = {"C05", "C07", "C08", "C09"}
 ENGINES = [
     ("hist", ["C01", "C02", "C03", "C04", "C05", "C06", "C07", "C08", "C09", "C10", "C16", "C18"], "random valid operation histories over a pool of vectors, all monitors after every step"),
     ("matrix", ["C20"], "one cell per documented operation x parameter-list category x allocator kind: compiled by g++ and clang++, then executed under ASan/UBSan with a postcondition"),
+    ("cmp", ["C13", "C14"], "operand pools over small value domains; all ordered pairs and triples across operand kinds, capacities, junk patterns, arenas and allocator types"),
+    ("ref", ["C11"], "writes through one access path cross-read through all others, reference assignment / swap, permuting algorithms and iterator arithmetic against a model"),
+    ("elem", ["C12"], "pool of ContiguousElements next to a source vector: constructions, assignments, swaps, element <-> reference assignment, mutations, all monitors after every step"),
 ]
 ENGINE_OF = {p: "hist" for p in HIST_PROPS}
-ENGINE_OF["C20"] = "matrix"
+ENGINE_OF.update({"C20": "matrix", "C13": "cmp", "C14": "cmp", "C11": "ref", "C12": "elem"})
 CLAIMED = sorted(ENGINE_OF)
 LEVEL = {}
 LEVEL_TEXT = {"C20": "Exhaustive over a declared finite matrix (operation x parameter-list category x value-type category x allocator kind): every cell is compiled with two compilers and the compiled cell is executed under ASan/UBSan and the ledger with a postcondition. Ill-formedness is a build-time observation of the generated unit (the honest limit of this family for C20, see DESIGN.md)."}
 LEVEL_NOTE = {"C20": "Trusted: g++ 12 and clang++ 14 as arbiters of well-formedness, the curated representative parameter list per category (thorough adds sampled lists and all allocator kinds), the harness postconditions."}
-TECHNIQUE = {"C20": "runtime monitoring of generated instantiation units: each operation cell compiled (g++, clang++) then executed under ASan/UBSan + ledger allocator with postconditions"}
-NOT_APPLICABLE = [{"property_id": p, "reason": "check under construction in this round (engine not built yet); see DESIGN.md section 5"} for p in ["C11", "C12", "C13", "C14", "C15", "C17", "C19"]]
+TECHNIQUE = {
+    "C20": "runtime monitoring of generated instantiation units: each operation cell compiled (g++, clang++) then executed under ASan/UBSan + ledger allocator with postconditions",
+    "C13": "runtime monitoring: ==/!= on enumerated operand pairs (13 operand-kind combinations, 3 junk patterns, 2 capacities, 2 allocator types) against field-wise equality of a model, under ASan/UBSan",
+    "C14": "runtime monitoring: the six relational operators on enumerated operand pairs and triples checked against the order axioms, operand-kind independence and lexicographical comparison under the observed element-level <",
+    "C11": "runtime monitoring: model-based cross-read of every access path after writes, reference assignment / swap and std permuting algorithms; iterator arithmetic vs index arithmetic for all index pairs; ASan/UBSan + object registry",
+    "C12": "runtime monitoring: model comparison of a pool of elements and their source vector after every construction / assignment / swap, with allocator-identity, block-ownership, layout, object-registry and ledger monitors under ASan/UBSan",
+}
+NOT_APPLICABLE = [{"property_id": p, "reason": "check under construction in this round (engine not built yet); see DESIGN.md section 5"} for p in ["C15", "C17", "C19"]]
 
 
 def tier_limits(tier):
@@ -411,6 +420,7 @@ def setup():
     for prop in ["C01"]:
         units += hist_units(prop, "quick", vf.SEED)
     units += matrix_units("quick", vf.SEED)
+    units += cmp_units("C13", "quick", vf.SEED) + ref_units("quick", vf.SEED) + elem_units("quick", vf.SEED)
     errs = []
     t0 = time.time()
     import concurrent.futures as cfu
